@@ -71,7 +71,9 @@ fn main() {
             for s in questrade::corpus_cases(&scratch) {
                 w.write_all(s.as_bytes()).unwrap();
             }
-            let mut r = rng::Rng::new(seed ^ 0x5154);
+            // Rng::new(seed) is affine in the seed (streams of consecutive seeds overlap, shifted
+            // by one draw); start from a mixed state instead so that seeds are independent.
+            let mut r = rng::Rng(rng::Rng::new(seed ^ 0x5154).next());
             for i in 0..count {
                 let mut cr = r.fork();
                 let c = questrade::gen_case(&mut cr);
